@@ -252,17 +252,18 @@ fn returning_diff_kind(expected: &[Row], observed: &[Row]) -> &'static str {
     if m.len() != x.len() {
         return "returning-rows";
     }
-    let mut bool_as_int = true;
-    let mut toast_ptr = true;
+    // every missing row must pair with an unexpected row that differs only in cells that are
+    // (a) BOOLEAN returned as 0/1 or (b) a TOAST-sized value returned as the TOAST pointer
+    let mut explained = true;
+    let mut any_toast = false;
     for e in &m {
-        let mut b_ok = false;
-        let mut t_ok = false;
+        let mut row_ok = false;
         for o in &x {
             if o.len() != e.len() {
                 continue;
             }
-            let mut only_bool = true;
-            let mut only_toast = true;
+            let mut ok = true;
+            let mut toast_here = false;
             for (a, b) in e.iter().zip(o.iter()) {
                 if a == b {
                     continue;
@@ -270,25 +271,28 @@ fn returning_diff_kind(expected: &[Row], observed: &[Row]) -> &'static str {
                 let bool_int = matches!((a, b), (Val::Bool(t), Val::Int(i)) if (*t as i64) == *i);
                 let toast = matches!(a, Val::Text(s) if s.len() > 900) && is_toast_pointer(b)
                     || matches!(a, Val::Blob(s) if s.len() > 900) && is_toast_pointer(b);
-                if !bool_int {
-                    only_bool = false;
+                if toast {
+                    toast_here = true;
                 }
-                if !toast {
-                    only_toast = false;
+                if !bool_int && !toast {
+                    ok = false;
+                    break;
                 }
             }
-            b_ok |= only_bool;
-            t_ok |= only_toast;
+            if ok {
+                row_ok = true;
+                any_toast |= toast_here;
+                break;
+            }
         }
-        bool_as_int &= b_ok;
-        toast_ptr &= t_ok;
+        explained &= row_ok;
     }
-    if bool_as_int {
-        "returning-bool-as-int"
-    } else if toast_ptr {
+    if !explained {
+        "returning-rows"
+    } else if any_toast {
         "returning-toast-pointer"
     } else {
-        "returning-rows"
+        "returning-bool-as-int"
     }
 }
 
